@@ -303,18 +303,32 @@ func (i *interpreter) scaledParts(x *smt.Term, cval uint64) (a, b *smt.Term, ok 
 		if x.Args[1].IsConst() && x.Args[1].Val == cval {
 			return x.Args[0], c.BV(0, 64), true
 		}
-	}
-	if x.Op != smt.OBvAdd {
 		return nil, nil, false
 	}
-	for k := 0; k < 2; k++ {
-		m, o := x.Args[k], x.Args[1-k]
-		if m.Op == smt.OBvMul {
-			if m.Args[0].IsConst() && m.Args[0].Val == cval {
-				return m.Args[1], o, true
+	isZero := func(t *smt.Term) bool { return t.IsConst() && t.Val == 0 }
+	switch x.Op {
+	case smt.OBvAdd, smt.OBvSub:
+		// sums and differences of scaled values where at most one side has a fractional part
+		a1, b1, ok1 := i.scaledParts(x.Args[0], cval)
+		a2, b2, ok2 := i.scaledParts(x.Args[1], cval)
+		if ok1 && ok2 && (isZero(b1) || isZero(b2)) {
+			if x.Op == smt.OBvAdd {
+				return c.Bin(smt.OBvAdd, a1, a2), c.Bin(smt.OBvAdd, b1, b2), true
 			}
-			if m.Args[1].IsConst() && m.Args[1].Val == cval {
-				return m.Args[0], o, true
+			return c.Bin(smt.OBvSub, a1, a2), c.Bin(smt.OBvSub, b1, b2), true
+		}
+		if x.Op == smt.OBvAdd {
+			// a*c + b with b an arbitrary (small) term
+			for k := 0; k < 2; k++ {
+				m, o := x.Args[k], x.Args[1-k]
+				if m.Op == smt.OBvMul {
+					if m.Args[0].IsConst() && m.Args[0].Val == cval {
+						return m.Args[1], o, true
+					}
+					if m.Args[1].IsConst() && m.Args[1].Val == cval {
+						return m.Args[0], o, true
+					}
+				}
 			}
 		}
 	}
@@ -323,27 +337,22 @@ func (i *interpreter) scaledParts(x *smt.Term, cval uint64) (a, b *smt.Term, ok 
 
 // scaleConstOf returns the constant c if x has the shape a*c + b.
 func scaleConstOf(x *smt.Term) (uint64, bool) {
-	if x.W == 64 && x.Op == smt.OBvMul {
+	if x.W != 64 {
+		return 0, false
+	}
+	switch x.Op {
+	case smt.OBvMul:
 		if x.Args[0].IsConst() && int64(x.Args[0].Val) > 1<<16 {
 			return x.Args[0].Val, true
 		}
 		if x.Args[1].IsConst() && int64(x.Args[1].Val) > 1<<16 {
 			return x.Args[1].Val, true
 		}
-	}
-	if x.Op != smt.OBvAdd || x.W != 64 {
-		return 0, false
-	}
-	for k := 0; k < 2; k++ {
-		m := x.Args[k]
-		if m.Op == smt.OBvMul {
-			if m.Args[0].IsConst() && int64(m.Args[0].Val) > 1<<16 {
-				return m.Args[0].Val, true
-			}
-			if m.Args[1].IsConst() && int64(m.Args[1].Val) > 1<<16 {
-				return m.Args[1].Val, true
-			}
+	case smt.OBvAdd, smt.OBvSub:
+		if c, ok := scaleConstOf(x.Args[0]); ok {
+			return c, true
 		}
+		return scaleConstOf(x.Args[1])
 	}
 	return 0, false
 }
@@ -420,7 +429,7 @@ func (i *interpreter) compareScaled(op string, x, y *smt.Term) (*smt.Term, bool)
 // |b| < c and that a*c cannot overflow, quotient and remainder are a and b up to a carry of one,
 // with no multiplication to invert.  The two side conditions are discharged by the solver.
 func (i *interpreter) divmodOfScaledSum(x *smt.Term, cval uint64, signed bool) (*smt.Term, *smt.Term, bool) {
-	if !signed || (x.Op != smt.OBvAdd && x.Op != smt.OBvMul) || x.W != 64 || int64(cval) <= 1 {
+	if !signed || (x.Op != smt.OBvAdd && x.Op != smt.OBvMul && x.Op != smt.OBvSub) || x.W != 64 || int64(cval) <= 1 {
 		return nil, nil, false
 	}
 	c := i.ctx
